@@ -9,7 +9,7 @@ EXPLANATION = ('Static rules on the five subject types (instances of the same ma
                'one live range of the `observers` guard; J2 every notification first moves the waiting subscribers from the side list into '
                'the live list (load) and subscribe only ever pushes into the side list; J3 terminals take() the live list, unsubscribe takes '
                'both lists, is_finished/is_closed answer "live list is None", subscribing to an unsubscribed subject yields an empty '
-               'subscriber; J4 the terminal broadcast skips closed subscribers; J7 unsubscribe() closes the live list before the waiting chamber, the order load()/len()/is_empty() rely on (same rule as C10.L6); J6 the live list is not edited during a broadcast (every present subscriber is visited once); J5 the stored subscriber handle delivers under its slot guard and never re-fills its slot (unsubscribe-one is effective and final). Decides the mechanism behind "a subscriber added during an '
+               'subscriber; J4 the terminal broadcast skips closed subscribers; J8 is_empty()/len() count the waiting chamber only while the live list is open (a finished subject is empty); J7 unsubscribe() closes the live list before the waiting chamber, the order load()/len()/is_empty() rely on (same rule as C10.L6); J6 the live list is not edited during a broadcast (every present subscriber is visited once); J5 the stored subscriber handle delivers under its slot guard and never re-fills its slot (unsubscribe-one is effective and final). Decides the mechanism behind "a subscriber added during an '
                'emission does not see the in-flight item"; does not decide exactly-once delivery over join/leave histories.')
 ASSUMPTIONS = ['SmallVec keeps insertion order; RefCell/Mutex guards give exclusive access']
 
@@ -38,7 +38,20 @@ def _lists(cx, adt_path):
     if len(cells) != 2:
         raise Incomplete('expected two subscriber-list cells in %s, found %s' % (adt_path, cells))
     live = None
+    # the live list is the one a broadcast walks: the receiver of the Publisher::p_next calls in Observer::next
     for im in F.impls.values():
+        if roles.impl_tag(cx, im) == adt_path and im.get('trait') == 'observer::Observer':
+            fn = F.impl_fn(im, 'next')
+            if fn is not None:
+                g = cx.graph(fn['key'])
+                for n in g.nodes:
+                    if down_method(n) == 'next' and n['args']:
+                        c = recv_class(n['args'][0])
+                        if c.startswith('self.') and c[5:] in cells:
+                            live = c[5:]
+    for im in F.impls.values():
+        if live is not None:
+            break
         if roles.impl_tag(cx, im) == adt_path and not im.get('trait'):
             for f in im['fns']:
                 fn = F.fns.get(f['key'])
@@ -57,7 +70,60 @@ def _lists(cx, adt_path):
 
 
 def check(cx):
-    return _check(cx) + j7(cx)
+    return _check(cx) + j7(cx) + j8(cx)
+
+
+def j8(cx):
+    """a subject that delivered its terminal (live list closed) is empty: is_empty()/len() look at the waiting chamber only on paths
+    on which the live list is still open — error()/complete() close the live list only, so subscribers that arrive afterwards sit in
+    the chamber for ever and must not be counted"""
+    from ..core import explore, witness, interesting_default, guard_of, sw_value, recv_class as rc_
+    F = cx.facts
+    res = []
+    if cx.control:
+        return res
+    subs = _subjects(cx)
+    n = 0
+    for im in sorted(F.impls.values(), key=lambda i: (i['file'], i['line'], i['self_s'])):
+        tag = roles.impl_tag(cx, im)
+        if tag not in subs or (im.get('trait') or '').rsplit('::', 1)[-1] != 'SubjectSize':
+            continue
+        LIVE, WAIT = _lists(cx, tag)
+        for fref in im.get('fns', []):
+            fn = F.fns.get(fref['key'])
+            if fn is None or fn.get('name') not in ('is_empty', 'len'):
+                continue
+            n += 1
+            g = cx.graph(fn['key'])
+
+            def step(st, x, lab):
+                state, depth = st
+                if state == 'BAD':
+                    return None
+                d, v = sw_value(lab)
+                if d is not None:
+                    dd = strip(d)
+                    if dd[0] == 'discr' and rc_(dd[1]) == 'self.' + LIVE and v == 1 and state != 'in':
+                        state = 'some'
+                if x['kind'] == 'call' and x['args'] and rc_(x['args'][0]) == 'self.' + LIVE and \
+                        x['name'].rsplit('::', 1)[-1] in ('map_or', 'map', 'map_or_else', 'and_then', 'is_some_and', 'inspect') and state == 'out':
+                    state = 'armed'
+                elif x['kind'] == 'enter' and x.get('name') == '<closure>' and state == 'armed':
+                    state, depth = 'in', len(x['ctx']) + 1
+                elif x['kind'] == 'exit' and x.get('name') == '<closure>' and state == 'in' and len(x['ctx']) + 1 == depth:
+                    state, depth = 'out', 0
+                gd = guard_of(x)
+                if gd and gd[1] == 'self.' + WAIT and state not in ('in', 'some'):
+                    return ('BAD', 0)
+                return (state, depth)
+            reached, pred = explore(g, ('out', 0), step)
+            bad = [k for k in reached if k[1][0] == 'BAD']
+            res.append(Finding(ID, 'J8', cx.label(fn), not bad,
+                               'the waiting chamber is looked at although the live list may already be closed: after complete()/error() late subscribers stay in the chamber, so a finished subject reports itself non-empty'
+                               if bad else 'the chamber is only counted while the live list is open', fn['span'], witness(g, pred, bad[0], interesting_default) if bad else None))
+    if n < 10:
+        res.append(Finding(ID, 'J8', 'floor', False, 'expected is_empty/len of the 5 subject types, found %d' % n))
+    return res
 
 
 def j7(cx):
